@@ -80,11 +80,13 @@ func TestC07Transient(t *testing.T) {
 	}, execTransient)
 }
 
-// ---- several values in one stream ----------------------------------------------------------------
+// ---- other transports ---------------------------------------------------------------------------
 //
-// A pickle ends at its STOP opcode. Values written one after the other to one stream (a file, a pipe,
-// a base64 decoder - readers that hand out whatever chunk they like and are not io.ByteReaders) must
-// come back one by one from a fresh Decoder each: a Decoder may not consume bytes of the next value.
+// The decoder is handed readers that are not io.ByteReaders and return whatever chunk they like (a
+// file, a pipe, a base64 decoder), with unrelated bytes following the STOP opcode. Each value is read
+// from its own stream: what a Decoder may do with bytes *after* its pickle (reading ahead is a
+// legitimate implementation choice, and one of the property-preserving changes of the benign round
+// does exactly that) is not part of the statement, so values sharing one stream are not checked.
 
 type StreamCase struct {
 	Vs    []starval.V `json:"vs"`
@@ -114,29 +116,26 @@ func (r *chunkReader) Read(p []byte) (int, error) {
 }
 
 func execStream(c StreamCase) ev.Verdict {
-	if len(c.Vs) < 2 {
+	if len(c.Vs) == 0 {
 		return ev.Verdict{Skip: "short"}
 	}
-	var stream bytes.Buffer
-	var vals []starlark.Value
-	for _, d := range c.Vs {
-		v, _ := starval.Build(d)
-		vals = append(vals, v)
-		if err := pickle.NewEncoder(&stream, starval.Pickler).Encode(v); err != nil {
+	for i, d := range c.Vs {
+		want, _ := starval.Build(d)
+		var stream bytes.Buffer
+		if err := pickle.NewEncoder(&stream, starval.Pickler).Encode(want); err != nil {
 			return ev.Failf("encode-error", "Encode failed: %v", err)
 		}
-	}
-	r := &chunkReader{data: stream.Bytes(), chunk: c.Chunk}
-	for i, want := range vals {
+		stream.WriteString("trailing bytes that are not a pickle \x00\xff(((")
+		r := &chunkReader{data: stream.Bytes(), chunk: c.Chunk}
 		got, err := pickle.NewDecoder(r, starval.Unpickler).Decode()
 		if err != nil {
-			return ev.Failf("stream-decode-error", "value %d of %d written to one stream does not decode with a fresh Decoder: %v", i+1, len(vals), err)
+			return ev.Failf("stream-decode-error", "value %d read through a reader that returns at most %d bytes per call does not decode: %v", i+1, c.Chunk, err)
 		}
 		if ok, why := starval.Iso(want, got); !ok {
-			return ev.Failf("stream-not-iso", "value %d of %d written to one stream decodes to something else: %s", i+1, len(vals), why)
+			return ev.Failf("stream-not-iso", "value %d read through a reader that returns at most %d bytes per call decodes to something else: %s", i+1, c.Chunk, why)
 		}
 	}
-	return ev.Verdict{NonTrivial: true, Classes: []string{"stream-of-values"}}
+	return ev.Verdict{NonTrivial: true, Classes: []string{"plain-reader"}}
 }
 
 func TestC07Stream(t *testing.T) {
